@@ -51,7 +51,7 @@ def binary(engine, tier, flavour):
 
 def cov_exclude(engine):
     """configurations left out of the -O0 coverage slice (too slow unoptimised)"""
-    return "#huge,#big,#enum,#sweep,#segs" if engine.startswith("static_") else ("#enum" if engine == "dynamic" else "")
+    return "#huge,#big,#enum,#sweep,#segs,#giant" if engine.startswith("static_") else ("#enum" if engine == "dynamic" else "")
 
 
 def R(engine, flavour, cases, **kw):
@@ -61,8 +61,9 @@ def R(engine, flavour, cases, **kw):
 
 
 def Q(engine, flavour, cases, **kw):
-    """quick-tier run of a static engine: the bounded-exhaustive #enum configurations are left to the thorough tier"""
-    return R(engine, flavour, cases, exclude="#enum", **kw)
+    """quick-tier run of a static engine: the bounded-exhaustive #enum configurations are left to the thorough tier, and the
+    #giant cases (4*10^7 keys) run in the optimised flavours only"""
+    return R(engine, flavour, cases, exclude="#enum,#giant" if flavour == "asan" else "#enum", **kw)
 
 
 ASSUME_COMMON = [
@@ -82,7 +83,7 @@ def pgm_runs(prop, q_cases, t_cases, archer=False):
         if tier == "quick":
             r = [Q("static_pgm", "asan", q_cases), Q("static_pgm", "v3", q_cases)]
             return r + ([archer_run(250)] if archer else [])
-        r = [R("static_pgm", "asan", t_cases), R("static_pgm", "rel", t_cases * 2), R("static_pgm", "v3", t_cases * 2)]
+        r = [R("static_pgm", "asan", t_cases, exclude="#giant"), R("static_pgm", "rel", t_cases * 2), R("static_pgm", "v3", t_cases * 2)]
         return r + ([archer_run(1500)] if archer else [])
     return runs
 
@@ -124,7 +125,7 @@ def variant_runs(engine, q_cases, t_cases):
     def runs(tier):
         if tier == "quick":
             return [Q(engine, "asan", q_cases), Q(engine, "v3", q_cases)]
-        return [R(engine, "asan", t_cases), R(engine, "rel", t_cases * 2), R(engine, "v3", t_cases * 2)]
+        return [R(engine, "asan", t_cases, exclude="#giant"), R(engine, "rel", t_cases * 2), R(engine, "v3", t_cases * 2)]
     return runs
 
 
